@@ -98,6 +98,10 @@ macro_rules
            (try simp only [countExact_emit, countExact_newReloc, countExact_addAddress])
            first | exact $h | exact countExact_of_core rfl rfl rfl $h))
 
+theorem x86MemAbsM_countExact (s : State) (sh : AShape) (a : AddrT) (t : BitVec 64) (h : CountExact s) :
+    CountExact (x86MemAbsM s sh a t).1 := by
+  unfold x86MemAbsM; frame_core h
+
 theorem step_countExact (s : State) (op : Op) (h : CountExact s) : CountExact (step s op).1 := by
   cases op with
   | newLabel =>
@@ -125,6 +129,18 @@ theorem step_countExact (s : State) (op : Op) (h : CountExact s) : CountExact (s
     have hA := addAddress_core s t
     frame_core h
   | a64Abs k t => simp only [step]; unfold a64RelAbs; frame_core h
+  | memAbs k a t =>
+    simp only [step]
+    split
+    · exact h
+    · unfold x86MemAbs
+      cases (MKind.ashape s.arch k).moffs with
+      | none => exact x86MemAbsM_countExact _ _ _ _ h
+      | some mo =>
+        dsimp only
+        split
+        · exact (countExact_emit _ _).mpr h
+        · exact x86MemAbsM_countExact _ _ _ _ h
 
 theorem run_countExact (s : State) (ops : List Op) (h : CountExact s) : CountExact (run s ops) := by
   induction ops generalizing s with
@@ -284,6 +300,10 @@ macro_rules
            (try simp only [fixupsWF_emit, fixupsWF_newReloc, fixupsWF_addAddress])
            first | exact $h | exact fixupsWF_of_core rfl rfl $h))
 
+theorem x86MemAbsM_fixupsWF (s : State) (sh : AShape) (a : AddrT) (t : BitVec 64) (h : FixupsWF s) :
+    FixupsWF (x86MemAbsM s sh a t).1 := by
+  unfold x86MemAbsM; frame_wf h
+
 theorem step_fixupsWF (s : State) (op : Op) (h : FixupsWF s) : FixupsWF (step s op).1 := by
   cases op with
   | newLabel =>
@@ -313,6 +333,18 @@ theorem step_fixupsWF (s : State) (op : Op) (h : FixupsWF s) : FixupsWF (step s 
   | relocate b => simp only [step]; unfold relocate; frame_wf h
   | jmpAbs k opt t => simp only [step]; unfold x86JmpAbs emitJmpCallRel; frame_wf h
   | a64Abs k t => simp only [step]; unfold a64RelAbs; frame_wf h
+  | memAbs k a t =>
+    simp only [step]
+    split
+    · exact h
+    · unfold x86MemAbs
+      cases (MKind.ashape s.arch k).moffs with
+      | none => exact x86MemAbsM_fixupsWF _ _ _ _ h
+      | some mo =>
+        dsimp only
+        split
+        · exact (fixupsWF_emit _ _).mpr h
+        · exact x86MemAbsM_fixupsWF _ _ _ _ h
 
 /-- **C03 (no fixup is ever orphaned).** For every program: each fixup on the cross-section list names a bound label, so
 `resolve_cross_section_fixups` can evaluate every one of them (on the pinned tree a reference to a label already bound
